@@ -249,7 +249,7 @@ def run_one(tape, tier, prop):
                 res.violate("C09", "limit_not_exact", {"run": what, "limit": n, "total": total, "written": len(got),
                                                        "is_prefix": got == lines0[:len(got)]})
                 break
-        if tier == "thorough" and not res.violations:
+        if (tier == "thorough" or t.chance(1, 3)) and not res.violations:
             load_with_limit(res, t, argv, E, lines0, wr)
         res.stats["limits_tried"] += len(Ns)
         res.nontrivial = digest_of([spec["base"], spec["vars"], flags, mode, Ns]) if inside else None
@@ -315,19 +315,44 @@ def load_with_limit(res, t, argv, E, lines0, wr):
     if not rr.ctx.fired or len(guesser.split_lines(tx)) != cut:
         return
     res.faults["quit_then_load_with_limit"] += 1
-    remaining = total - cut
-    n = t.between(1, remaining + 1)
-    tx2, sm2, r2 = run_proc(argv + ["--load", "--limit", str(n)])
-    if r2.exc:
-        res.violate("C09", "raised", {"run": "load+limit", "exception": r2.exc[-1200:]})
+    saved = {}
+    for fn in ("S.sav", "S.omn"):
+        pth = os.path.join(wr, fn)
+        if os.path.exists(pth):
+            saved[fn] = open(pth, "rb").read()
+
+    def restore_files():
+        for fn in ("S.sav", "S.omn"):
+            pth = os.path.join(wr, fn)
+            if fn in saved:
+                open(pth, "wb").write(saved[fn])
+            elif os.path.exists(pth):
+                os.unlink(pth)
+
+    # reference: the same saved state resumed without a limit
+    txu, smu, ru = run_proc(argv + ["--load"])
+    if ru.exc:
+        res.violate("C09", "raised", {"run": "load", "exception": ru.exc[-1200:]})
         return
-    got = guesser.split_lines(tx2)
-    if tx2 != "".join(g + "\n" for g in sm2):
-        res.violate("C09", "stdout_not_guess_stream", {"run": "load+limit"})
+    if txu != "".join(g + "\n" for g in smu):
+        res.violate("C09", "stdout_not_guess_stream", {"run": "load"})
         return
-    # ties at the saved probability may legitimately be repeated on resume (C08); only judge the count
-    if len(got) != min(n, len(got)) or (len(got) > n):
-        res.violate("C09", "limit_not_exact_after_load", {"limit": n, "written": len(got), "cut": cut, "trigger": repr(trig)})
+    lines_u = guesser.split_lines(txu)
+    for n in sorted({1, t.between(1, len(lines_u) + 1), t.between(1, max(1, min(len(lines_u), 12)))}):
+        restore_files()
+        tx2, sm2, r2 = run_proc(argv + ["--load", "--limit", str(n)])
+        if r2.exc:
+            res.violate("C09", "raised", {"run": "load+limit", "exception": r2.exc[-1200:]})
+            return
+        if tx2 != "".join(g + "\n" for g in sm2):
+            res.violate("C09", "stdout_not_guess_stream", {"run": "load+limit"})
+            return
+        got = guesser.split_lines(tx2)
+        if got != lines_u[:min(n, len(lines_u))]:
+            res.violate("C09", "limit_not_exact_after_load", {"limit": n, "written": len(got), "resumed_total": len(lines_u),
+                                                             "cut": cut, "trigger": repr(trig),
+                                                             "is_prefix": got == lines_u[:len(got)]})
+            return
 
 
 # ---------------------------------------------------------------------------
